@@ -586,9 +586,14 @@ def process (s : Api) (inNull outNull : Bool) (olen : Nat) (fn : FnObs) : Api ×
 def delay (s : Api) : Api × Ret :=
   if s.error.isSome || !s.built then (s, .count .zero) else (s, .count .any)
 
+/-- `soxr_clear`: everything but the configuration is reset; recipes with RESET_ON_CLEAR get their ratio back — stored as
+    `soxr_create` stores it, and the engine re-created only when the channel count and the ratio are known -/
 def clear (s : Api) : Api × Ret :=
   let s' := { s with error := none, built := false, ioRatio := zero }
-  if hasFlag s.q.flags Gen.flagResetOnClear then setIoRatio s' s.ioRatio else (s', .status none)
+  if hasFlag s.q.flags Gen.flagResetOnClear then
+    let s'' := { s' with ioRatio := s.ioRatio }
+    if s.channels ≠ 0 ∧ ne s.ioRatio zero = true then setIoRatio s'' s.ioRatio else (s'', .status none)
+  else (s', .status none)
 
 def step (s : Api) : Op → Api × Ret
   | .setIoRatio r => setIoRatio s r
